@@ -10,7 +10,13 @@
     * the only hypothesis at the seam: a transaction ref names the delivery (`RefNames`: the ref is the hash of the signed
       transaction, which carries the payload hash).  C09's `Tx.ref` is an unconstrained `Nat` and `deliver` answers ok for a
       second transaction with a known ref and other content while C10's `add` silently keeps the first one
-      (`ref_collision_accepted_but_not_stored`): without the contract "accepted" and "stored" differ.
+      (`ref_collision_accepted_but_not_stored`): without the contract "accepted" and "stored" differ — by exactly that
+      (`store_vs_accepted_without_contract`).
+  Theorems: (1) `store_holds_exactly_the_accepted`; (2) `chain_of_custody` (+ `_reachable`), thumbprints collision-free;
+  (3) `same_accepted_set_same_answers`; (4) `acceptance_depends_on_delivery_order` / `acceptance_order_independent_false`
+  (acceptance is NOT independent of the delivery order among causally consistent orders: the two fallbacks of
+  `handleUpdateDIDDocument` — latest version, controllers by signing time — read what the node happens to hold) and the
+  positive half `future_depends_only_on_accepted_set`.
 -/
 import NutsProofs.Lemmas.ComposeDid
 import NutsProofs.Props.C09
@@ -24,6 +30,7 @@ open Nuts Nuts.C10 Nuts.C09 Nuts.Compose.Did
 /-- **Contract at the seam**: within a history a transaction ref names the delivery -/
 def RefNames (l : List Delivery) : Prop := ∀ p ∈ l, ∀ q ∈ l, p.1.ref = q.1.ref → p = q
 
+/-- under the contract the accepted events satisfy C10's hypothesis `RefFun` — discharged, no longer an input -/
 theorem refFun_accepted (c : C09.Cfg) (l : List Delivery) (hR : RefNames l) : RefFun (accepted c {} l) := by
   intro a ha b hb hab
   obtain ⟨pre, tx, d, post, _, hl, rfl, _⟩ := (mem_accepted c l {} a).mp ha
@@ -35,6 +42,15 @@ theorem refFun_accepted (c : C09.Cfg) (l : List Delivery) (hR : RefNames l) : Re
   obtain ⟨rfl, rfl⟩ := this
   rfl
 
+/-- **The store holds exactly the accepted (target 1).** For EVERY history of deliveries through C09's `deliver` from the
+    empty store — valid, forged, replayed, unparsable, in any order:
+    * the node's store IS C10's `addAll` over the events of the accepted deliveries (so every C10 theorem about `addAll cfg {} l`
+      applies to it with `l := accepted c {} l`, an OUTPUT of C09 instead of an unconstrained input);
+    * every DID's record satisfies C10's invariant (sorted, no duplicate refs, chain = the fold over the sorted list) and its
+      event list holds exactly the events of the accepted deliveries of that DID — each the (transaction, document) of a
+      delivery that C09 accepted in the state reached at that point;
+    * a rejected delivery leaves no trace: removing it from the history changes neither the store nor the accepted list
+      (`rejected_inert` lifted over histories). -/
 theorem store_holds_exactly_the_accepted (c : C09.Cfg) (l : List Delivery) (hR : RefNames l) :
     addAll c.store {} (accepted c {} l) = .ok (run c {} l) ∧
     (∀ id, Inv c.store ((run c {} l).get id) ∧
@@ -65,6 +81,12 @@ theorem store_holds_exactly_the_accepted (c : C09.Cfg) (l : List Delivery) (hR :
       · exact (step_not_ok c _ p (fun s' hs' => h ⟨s', hs'⟩)).2.2
     simp only [run, accepted, hs, hnone, Option.toList, List.nil_append, and_self]
 
+/-- **Same accepted set, same answers (target 3).** Two nodes — different delivery orders, different rejected traffic in
+    between, replays, different Go map iteration orders — whose histories led to the same set of ACCEPTED events hold the
+    same record for every DID and answer identically: the store's `Resolve` under every metadata, the did:nuts `Resolver`
+    (controller check, every depth), the ambassador's and the DAG verifier's key resolution, both counters, `Iterate()` and
+    `Conflicted()`.  C10's `resolve_order_independent` / `stats_order_independent` / `observations_order_independent` with
+    their hypotheses (`RefFun`, "the arrived events", `addAll … = ok`) discharged by C09 ∘ (1). -/
 theorem same_accepted_set_same_answers (c₁ c₂ : C09.Cfg) (σ₁ σ₂ : Field → List Entry → List Entry)
     (h₁ : ∀ f l, (σ₁ f l).Perm l) (h₂ : ∀ f l, (σ₂ f l).Perm l)
     (hc₁ : c₁.store = cfgOf σ₁ Facts.C10.mergeSortedFields) (hc₂ : c₂.store = cfgOf σ₂ Facts.C10.mergeSortedFields)
@@ -237,6 +259,44 @@ theorem ref_collision_accepted_but_not_stored :
   revert h2
   decide
 
+/-- **Without the contract** (`RefNames` dropped — refs may collide): still every stored event is an accepted one, and
+    every accepted delivery's REF is stored for its DID — possibly with the content of the first delivery that carried it
+    (`ref_collision_accepted_but_not_stored`); nothing else can differ between "accepted" and "stored". -/
+theorem store_vs_accepted_without_contract (c : C09.Cfg) (l : List Delivery) :
+    (∀ id e, e ∈ ((run c {} l).get id).events → e ∈ accepted c {} l ∧ e.doc.id = id) ∧
+    (∀ e, e ∈ accepted c {} l → ∃ x ∈ ((run c {} l).get e.doc.id).events, x.ref = e.ref) := by
+  constructor
+  · intro id e h
+    rw [run_eq_runHist] at h
+    obtain ⟨pre, tx, d, post, hl, he, hid, hok⟩ := C09.Props.resolvable_only_if_accepted c l id e h
+    rw [← run_eq_runHist] at hok
+    obtain ⟨s', hs', _⟩ := step_ok_inv c _ tx (some d) hok
+    exact ⟨(mem_accepted c l {} e).mpr ⟨pre, tx, d, post, s', hl, he, hs'⟩, by rw [he, ← hid]; rfl⟩
+  · intro e he
+    obtain ⟨pre, tx, d, post, s', hl, rfl, hok⟩ := (mem_accepted c l {} e).mp he
+    obtain ⟨h1, _, d', hpd, _, hadd⟩ := step_ok c _ s' (tx, some d) hok
+    cases hpd
+    have hmono : ∀ x, x ∈ (s'.get (eventOf tx d).doc.id).events → x ∈ ((run c {} l).get (eventOf tx d).doc.id).events := by
+      intro x hx
+      rw [hl, run_append]
+      simp only [run]
+      rw [h1]
+      exact run_mono c post s' _ x hx
+    obtain ⟨_, hown⟩ := add_get c.store _ s' _ hadd
+    rcases hown with ⟨hnone, rfl⟩ | hsome
+    · unfold addDid at hnone
+      split at hnone
+      · rename_i hc
+        unfold contains at hc
+        obtain ⟨y, hy, hyr⟩ := List.any_eq_true.mp hc
+        exact ⟨y, hmono y hy, by simpa using hyr⟩
+      · simp only at hnone
+        split at hnone
+        · cases hnone
+        · cases hnone
+        · split at hnone <;> cases hnone
+    · exact ⟨_, hmono _ (addDid_mono c.store _ _ _ hsome).1, rfl⟩
+
 /-! ### (4) is acceptance independent of the delivery order among causally consistent orders?  No. -/
 
 /-- the statement one would like: two causally consistent delivery orders of the same deliveries accept the same transactions -/
@@ -300,5 +360,30 @@ example : outcomes wCfg {} [c100, d130, e120, deact300, u410] = ["ok", "ok", "ok
 -- … and a controller whose creation arrives late: refused, although every prev of 410 was delivered before it
 example : outcomes wCfg {} [d130, e120, u410, c100] = ["ok", "ok", "err:update:not-signed-by-controller", "ok"] ∧
     outcomes wCfg {} [c100, d130, e120, u410] = ["ok", "ok", "ok", "ok"] ∧ causal [d130, e120, u410, c100] = true := by decide
+
+
+/-- **What acceptance DOES depend on (the positive half of target 4).** The node's past matters for its future decisions only
+    through the SET of accepted events: two nodes whose histories led to the same accepted set — whatever the orders, the
+    replays and the rejected traffic were — treat every common future identically: the same outcome class for every further
+    delivery (accepted, or refused with the same error), the same further accepted events, and agreeing stores (hence
+    identical `Resolve` answers) after it.  So the order dependence of `acceptance_depends_on_delivery_order` comes from the
+    accepted set a delivery MEETS, never from anything else a node remembers. -/
+theorem future_depends_only_on_accepted_set (c : C09.Cfg) (σ : Field → List Entry → List Entry)
+    (hσ : ∀ f l, (σ f l).Perm l) (hc : c.store = cfgOf σ Facts.C10.mergeSortedFields)
+    (l₁ l₂ : List Delivery) (hR : RefNames l₁)
+    (hsame : ∀ e, e ∈ accepted c {} l₁ ↔ e ∈ accepted c {} l₂) (future : List Delivery) :
+    outcomes c (run c {} l₁) future = outcomes c (run c {} l₂) future ∧
+    accepted c (run c {} l₁) future = accepted c (run c {} l₂) future ∧
+    (∀ id rm, resolve (run c {} (l₁ ++ future)) id rm = resolve (run c {} (l₂ ++ future)) id rm) := by
+  have hag : Agree (run c {} l₁) (run c {} l₂) :=
+    (same_accepted_set_same_answers c c σ σ hσ hσ hc hc l₁ l₂ hR hsame).1
+  obtain ⟨h1, h2, h3⟩ := run_agree c future _ _ hag
+  refine ⟨h1, h2, fun id rm => ?_⟩
+  rw [run_append, run_append, resolve_agree h3]
+
+-- not vacuous: after the two histories of the example above (same accepted set) a common future — a replay, a forged
+-- update, a further valid update — is treated identically
+example : outcomes wCfg (run wCfg {} hist₁) [u500, forged, c100] = outcomes wCfg (run wCfg {} hist₂) [u500, forged, c100] ∧
+    outcomes wCfg (run wCfg {} hist₁) [u500, forged, c100] = ["ok", "err:sig:key:key-not-found", "ok"] := by decide
 
 end Nuts.Compose.Did.Props
